@@ -7,7 +7,8 @@ Matches(x, r) == \A k \in DOMAIN x : k \in DOMAIN r /\ r[k] = x[k]
 Is(k) == l <= Len(Rec) /\ E.e = k /\ l' = l + 1
 TInit == InitWith([min |-> 1, initial |-> 1, max |-> 1]) /\ ev = [e |-> "init"] /\ l = 1
 TReset == Is("reset") /\ Reset([min |-> E.cfg.min, initial |-> E.cfg.initial, max |-> E.cfg.max, two |-> (IF "two" \in DOMAIN E.cfg THEN E.cfg.two ELSE 0)])
-TCreate == Is("create") /\ Create(E.c) /\ Matches(ev', E)
+Cp == "cp" \in DOMAIN E /\ E.cp = 1
+TCreate == Is("create") /\ (IF Cp THEN CreateP(E.c) ELSE Create(E.c)) /\ Matches(ev', E)
 TPoll == Is("poll") /\ (PollRefused(E.c) \/ PollStutter(E.c) \/ PollDone(E.c, E.limit)) /\ Matches(ev', E)
 TComplete == Is("complete") /\ Complete(E.c, E.out) /\ Matches(ev', E)
 TDrop == Is("drop") /\ Drop(E.c) /\ Matches(ev', E)
